@@ -1,4 +1,5 @@
 import MpsVerif.Model.AFifo
+import MpsVerif.Legacy.AFifoStale
 import MpsVerif.Core.Validate
 import MpsVerif.Drv.Util
 /-! Trace-validation and differential driver for the `async_fifo_stream` model (`drv afifo`).
@@ -26,22 +27,28 @@ def tauActs : List Act :=
   [.fcheck, .stopSeen, .put, .unbound, .putEnd, .putExc, .get, .raiseItem, .setStop,
    .drainCancel, .drainCancelRun, .drainSkip, .drainMark, .drainEmpty, .reap]
 
-def sys (c : Cfg) : LSys State Act Act :=
-  { step := step c
+/-- `stepf` is `AFifo.step` (the model the theorems are about) or `AFifoStale.step` (the pinned,
+    defective behaviour: used only to *name* defect F1 when the main model rejects a trace) -/
+def sysOf (stepf : Cfg → State → Act → Option State) (c : Cfg) : LSys State Act Act :=
+  { step := stepf c
     label := fun a => if isTau a then none else some a
     taus := fun _ => tauActs
     cands := fun _ e => if isTau e then [] else [e] }
 
-theorem sys_wf (c : Cfg) : WF (sys c) := by
+def sys (c : Cfg) : LSys State Act Act := sysOf step c
+
+theorem sysOf_wf (stepf : Cfg → State → Act → Option State) (c : Cfg) : WF (sysOf stepf c) := by
   constructor
   · intro s a ha
-    simp only [sys, tauActs, List.mem_cons, List.not_mem_nil, or_false] at ha
+    simp only [sysOf, tauActs, List.mem_cons, List.not_mem_nil, or_false] at ha
     rcases ha with h | h | h | h | h | h | h | h | h | h | h | h | h | h | h <;> subst h <;> rfl
   · intro s e a ha
-    simp only [sys] at ha ⊢
+    simp only [sysOf] at ha ⊢
     split at ha
     · simp at ha
     · simp at ha; subst ha; simp_all
+
+theorem sys_wf (c : Cfg) : WF (sys c) := sysOf_wf step c
 
 /-- a recorded event: the action it stands for and the indices the implementation reported -/
 structure Ev where
@@ -106,32 +113,32 @@ def summaryOk (kv : List (String × String)) (s : State) : Bool :=
   s.out.length == Drv.getN kv "out" && showRaised s.raised == Drv.getS kv "raised" "none"
     && s.closeReq == (Drv.getN kv "close" == 1)
 
-partial def loop (h : IO.FS.Stream) (st : St) : IO Unit := do
+partial def loop (stepf : Cfg → State → Act → Option State) (h : IO.FS.Stream) (st : St) : IO Unit := do
   let line ← h.getLine
   if line.isEmpty then return ()
   let ws := Drv.words line
   match ws with
   | "case" :: id :: rest =>
     let c := mkCfg (Drv.kvs rest)
-    loop h { id := id, cfg := c, fuel := c.cap + 10, ss := [init], k := 0, dead := false }
+    loop stepf h { id := id, cfg := c, fuel := c.cap + 10, ss := [init], k := 0, dead := false }
   | "e" :: name :: rest =>
-    if st.dead then loop h st else
+    if st.dead then loop stepf h st else
     let idx := rest.head?.bind String.toNat?
     let idx2 := (rest.drop 1).head?.bind String.toNat?
     match parseAct name idx with
     | none =>
       IO.println s!"REJECT {st.id} {st.k} bad-event {name}"
-      loop h { st with dead := true }
+      loop stepf h { st with dead := true }
     | some a =>
-      let ss' := vstep (sys st.cfg) st.fuel Ev.act keep st.ss { act := a, idx := idx, idx2 := idx2 }
+      let ss' := vstep (sysOf stepf st.cfg) st.fuel Ev.act keep st.ss { act := a, idx := idx, idx2 := idx2 }
       if ss'.isEmpty then
-        IO.println s!"REJECT {st.id} {st.k} event `{name} {rest}` not enabled in any of {(tauClose (sys st.cfg) st.fuel st.ss).length} compatible model states"
-        loop h { st with dead := true }
-      else loop h { st with ss := ss', k := st.k + 1, maxStates := max st.maxStates ss'.length }
+        IO.println s!"REJECT {st.id} {st.k} event `{name} {rest}` not enabled in any of {(tauClose (sysOf stepf st.cfg) st.fuel st.ss).length} compatible model states"
+        loop stepf h { st with dead := true }
+      else loop stepf h { st with ss := ss', k := st.k + 1, maxStates := max st.maxStates ss'.length }
   | "end" :: rest =>
-    if st.dead then loop h st else
+    if st.dead then loop stepf h st else
     let kv := Drv.kvs rest
-    let fin := tauClose (sys st.cfg) st.fuel st.ss
+    let fin := tauClose (sysOf stepf st.cfg) st.fuel st.ss
     let wantFinal := Drv.getN kv "final" == 1
     let partialRun := Drv.getN kv "partial" == 1
     let good := fin.filter (fun s => partialRun || (summaryOk kv s && (!wantFinal || decide (Final s))))
@@ -143,9 +150,12 @@ partial def loop (h : IO.FS.Stream) (st : St) : IO Unit := do
       IO.println s!"NOFINAL {st.id} {st.k} no compatible model state matches the summary {rest}; e.g. model state: {descr}"
     | some s =>
       IO.println s!"ok {st.id} events={st.k} maxstates={st.maxStates} dl={showDelivered (delivered st.cfg s.out)} oc={outcomeStr st.cfg}"
-    loop h { st with dead := true }
-  | _ => loop h st
+    loop stepf h { st with dead := true }
+  | _ => loop stepf h st
 
-def main : IO Unit := do loop (← IO.getStdin) {}
+def main : IO Unit := do loop step (← IO.getStdin) {}
+
+/-- the same protocol against the Legacy model of the pinned code (recogniser for defect F1) -/
+def mainStale : IO Unit := do loop AFifoStale.step (← IO.getStdin) {}
 
 end AFifo.Drv
